@@ -262,6 +262,7 @@ def builder(prog, chk):
     if ab is not None and any("AttrOrRaw" in n for n in guarded):
         aog = Origins(prog, ab)
         inner = [aog.callee_name(t) for _, t in ab.calls()]
+        inner = [n for n in inner if re.search(WR + r"|write", n)]       # the calls that can write (accessors such as an as_attribute() helper cannot)
         okg = okg and bool(inner) and all("AttributeWriteExt" in n and n.rstrip("]").split("[")[0].endswith("::write_into") or n.endswith("AttributeWriteExt::write_into") for n in inner)
         raw = raw + [n for n in inner if "unchecked" in n]
     chk.ob("builder-guard", "attributes are written through the guarded AttributeWriteExt::write_into", okg, detail=repr(raw[:2]), how="call sites")
